@@ -41,6 +41,15 @@ type wireCase struct {
 	// 0 nothing, 1 the source key file pretty-printed (valid and longer than what the import writes), 2 the source key
 	// file followed by 64 stray bytes, 3 a two-byte file, 4 an exact copy of the source key file
 	Prior int `json:"prior,omitempty"`
+	// Link: chain: the key file is reached through a symbolic link when it is loaded and exported (the created / legacy
+	// file before load + export, the imported file before load2 + export2): 0 regular file, 1 link to an absolute path
+	// outside the signer directory, 2 relative link (../<dir>/<file>), 3 the two-link chain of a Kubernetes secret volume
+	// (<file> -> ..data/<file>, ..data -> ..<timestamp>/)
+	Link int `json:"key_file_symlink,omitempty"`
+	// Cap: chain: capacity of the byte slices handed to the code under test (exported key, passphrases, message) when
+	// larger than their length; 0 = exact-size copies. A key read back from a backup file with os.ReadFile arrives in a
+	// 512-byte buffer.
+	Cap int `json:"buffer_capacity,omitempty"`
 }
 
 type wireMsg struct {
@@ -73,6 +82,10 @@ type stepObs struct {
 	FileName string `json:"file_name,omitempty"`
 	// OverExisting: import step only: the destination already held a file (wireCase.Prior > 0)
 	OverExisting bool `json:"over_existing,omitempty"`
+	// Link: load / export steps: how the key file was reached ("" = a regular file)
+	Link string `json:"key_file_is_symlink,omitempty"`
+	// KeyCap: import step: capacity of the slice that held the exported key
+	KeyCap int `json:"key_buffer_capacity,omitempty"`
 }
 
 type caseObs struct {
@@ -117,7 +130,63 @@ func childMain(args []string) int {
 	}
 }
 
-func cp(b []byte) []byte { return append([]byte{}, b...) }
+// spareCap is the capacity of the copies cp hands to the code under test (wireCase.Cap of the chain in flight; the
+// child runs one case at a time).
+var spareCap int
+
+// cp returns a private copy of b: of exactly its size, or - in a chain that says so - at the start of a larger buffer
+// whose spare bytes are not zero.
+func cp(b []byte) []byte {
+	if spareCap > len(b) {
+		buf := bytes.Repeat([]byte{0x5A}, spareCap)
+		copy(buf, b)
+		return buf[:len(b)]
+	}
+	return append([]byte{}, b...)
+}
+
+var linkNames = []string{"", "absolute", "relative", "two-link chain"}
+
+// relink moves the key file of dir somewhere else and leaves a symbolic link in its place. It returns how the file is
+// reached now ("" = still a regular file: kind 0, or no symbolic links on this file system) and the directory to
+// remove afterwards.
+func relink(kind int, dir string) (string, string) {
+	if kind <= 0 || kind >= len(linkNames) {
+		return "", ""
+	}
+	name := onlyFile(dir)
+	if name == "" {
+		return "", ""
+	}
+	var realDir, target, extra string
+	switch kind {
+	case 1:
+		realDir = dir + "-real"
+		target, extra = filepath.Join(realDir, name), realDir
+	case 2:
+		realDir = dir + "-real"
+		target, extra = filepath.Join("..", filepath.Base(realDir), name), realDir
+	default:
+		const stamp = "..2026_09_26_00_00_00.0000000001"
+		realDir = filepath.Join(dir, stamp)
+		target = filepath.Join("..data", name)
+		_ = os.Remove(filepath.Join(dir, "..data"))
+		if os.Symlink(stamp, filepath.Join(dir, "..data")) != nil {
+			return "", ""
+		}
+	}
+	if os.MkdirAll(realDir, 0o700) != nil {
+		return "", extra
+	}
+	if os.Rename(filepath.Join(dir, name), filepath.Join(realDir, name)) != nil {
+		return "", extra
+	}
+	if os.Symlink(target, filepath.Join(dir, name)) != nil {
+		_ = os.Rename(filepath.Join(realDir, name), filepath.Join(dir, name))
+		return "", extra
+	}
+	return linkNames[kind], extra
+}
 
 func guarded(step string, f func(o *stepObs)) (o stepObs) {
 	o.Step = step
@@ -283,6 +352,8 @@ func runCase(dir string, passes [][]byte, c *wireCase) caseObs {
 			out.Steps = append(out.Steps, doExport("export", dir, pass(c.Pass)))
 		}
 	case "chain":
+		spareCap = c.Cap
+		defer func() { spareCap = 0 }()
 		// a key file is opened on other machines than the one that wrote it: in two chains of three every step runs
 		// with another number of processors available to the Go runtime
 		procs := func(step int) {}
@@ -320,10 +391,18 @@ func runCase(dir string, passes [][]byte, c *wireCase) caseObs {
 				return out
 			}
 		}
+		// the key file may live elsewhere and be linked into the signer directory
+		linked, extra := relink(c.Link, da)
+		if extra != "" {
+			defer os.RemoveAll(extra)
+		}
 		procs(1)
-		out.Steps = append(out.Steps, doLoad("load", da, p, c.Msg))
+		ld := doLoad("load", da, p, c.Msg)
+		ld.Link = linked
+		out.Steps = append(out.Steps, ld)
 		procs(2)
 		ex := doExport("export", da, p)
+		ex.Link = linked
 		out.Steps = append(out.Steps, ex)
 		if !ex.OK {
 			return out
@@ -349,7 +428,9 @@ func runCase(dir string, passes [][]byte, c *wireCase) caseObs {
 		}
 		doImport := func(step, dst string) stepObs {
 			return guarded(step, func(o *stepObs) {
-				if err := file.ImportPrivateKey(dst, cp(ex.Priv), cp(q)); err != nil {
+				key := cp(ex.Priv)
+				o.KeyCap = cap(key)
+				if err := file.ImportPrivateKey(dst, key, cp(q)); err != nil {
 					o.Err = err.Error()
 					return
 				}
@@ -371,10 +452,18 @@ func runCase(dir string, passes [][]byte, c *wireCase) caseObs {
 		}
 		out.Steps = append(out.Steps, im)
 		if im.OK {
+			linked, extra := relink(c.Link, db)
+			if extra != "" {
+				defer os.RemoveAll(extra)
+			}
 			procs(4)
-			out.Steps = append(out.Steps, doLoad("load2", db, q, c.Msg))
+			l2 := doLoad("load2", db, q, c.Msg)
+			l2.Link = linked
+			out.Steps = append(out.Steps, l2)
 			procs(5)
-			out.Steps = append(out.Steps, doExport("export2", db, q))
+			e2 := doExport("export2", db, q)
+			e2.Link = linked
+			out.Steps = append(out.Steps, e2)
 		}
 		out.Steps = append(out.Steps, guarded("noop", func(o *stepObs) {
 			pk, err := crypto.UnmarshalEd25519PrivateKey(cp(ex.Priv))
